@@ -127,6 +127,9 @@ type World struct {
 	Prop string
 
 	Service, Product, Suffix string
+	// NextProcUnsuffixed: processes started while this is set use a metastore without region suffix
+	// (a mixed deployment: records written before suffixing was switched on).
+	NextProcUnsuffixed bool
 
 	Store  *SimStore
 	// Mem, when set, puts the repository's real MemoryMetastore (which hands out and keeps the caller's
@@ -205,7 +208,7 @@ func (w *World) NewProc(cfg PolicyCfg) *Proc {
 	p := &Proc{ID: len(w.Procs), Cfg: cfg}
 	w.Procs = append(w.Procs, p)
 	var ms appencryption.Metastore = &msView{w: w, proc: p.ID}
-	if w.Suffix != "" {
+	if w.Suffix != "" && !w.NextProcUnsuffixed {
 		ms = &msViewSuffixed{msView: msView{w: w, proc: p.ID}, suffix: w.Suffix}
 	}
 	conf := &appencryption.Config{Service: w.Service, Product: w.Product, Policy: cfg.Build()}
